@@ -1,7 +1,122 @@
-(** C13 — property theorems. *)
+(** C13 — event-driven components wake no later than requested.
+    Property theorems only.
+
+    Reading guide.  [exec init ops = Some (s, evs)] says: [ops] is a history of
+    one event-driven component, starting from a freshly built one, that respects
+    the engine contract (see C13.Model) and in which no call panicked.  [ops] is
+    arbitrary: any interleaving of engine time advances, ScheduleWakeAt requests
+    (earlier, later, equal, repeated), ScheduleWakeNow / NotifyRecv /
+    NotifyPortFree, and dispatches of its timer events (processor invocations;
+    requests made by the processor are simply the requests that follow).
+    [runs evs] are the times at which the processor ran. *)
+From Coq Require Import Sorting.Sorted.
 From Akita Require Import Lib.Base C13.Model C13.Proofs.
 Local Open Scope N_scope.
 
-Theorem c13_placeholder_init : queue init = [].
-Proof. reflexivity. Qed.
-Print Assumptions c13_placeholder_init.
+(** The invariant of the dedup guard: whenever pendingWakeup is not the
+    "nothing pending" value, a timer event with exactly that time is queued;
+    and no queued timer event is in the past. *)
+Theorem c13_guard_invariant : forall ops s evs, exec init ops = Some (s, evs) ->
+  (pw s <> max64 -> In (pw s) (queue s)) /\ Forall (fun t => now s <= t) (queue s).
+Proof.
+  intros ops s evs H. pose proof (inv_exec _ _ _ _ inv_init H) as HI.
+  split; [exact (inv_pw s HI)|exact (inv_q s HI)].
+Qed.
+Print Assumptions c13_guard_invariant.
+
+(** Clause 1: after any history, a wake-up request [q] for time [t] that is
+    accepted (did not panic) is not in the past, and in EVERY continuation the
+    next processor invocation happens at a time <= t; as long as the processor has
+    not run, a timer event with time <= t stays queued and the engine time has
+    not passed [t] (so a run that drains the queue invokes the processor by [t]). *)
+Theorem c13_no_later : forall q ops1 s0 evs0 s1 e ops2 s2 evs2,
+  exec init ops1 = Some (s0, evs0) -> step s0 (Req q) = Ok s1 e ->
+  exec s1 ops2 = Some (s2, evs2) ->
+  let t := req_time q s0 in
+  now s0 <= t /\
+  match runs evs2 with
+  | [] => (exists u, In u (queue s2) /\ u <= t) /\ now s2 <= t
+  | v :: _ => v <= t
+  end.
+Proof. intros q ops1 s0 evs0 s1 e ops2 s2 evs2. exact (no_later q _ _ _ _ _ _ _ _). Qed.
+Print Assumptions c13_no_later.
+
+(** A request for a time in the past is not silently dropped: it panics in
+    engine.Schedule (so "not in the past" is exactly the accepted case). *)
+Theorem c13_past_request_panics : forall ops s evs t, exec init ops = Some (s, evs) ->
+  t < now s -> step s (Req (WakeAt t)) = Panic.
+Proof. exact past_request_panics. Qed.
+Print Assumptions c13_past_request_panics.
+
+(** Clause 2: a receive / port-free notification (or ScheduleWakeNow) at time
+    [now s0] makes the processor run at the current instant: in every continuation
+    the next processor invocation is at exactly that time, and until then a timer
+    event for that time is queued and the engine time cannot move on.  (The
+    "already-pending earlier wake-up" of the statement can only be one for this
+    same instant, since queued events are never in the past.) *)
+Theorem c13_notify_now_or_earlier : forall q ops1 s0 evs0 s1 e ops2 s2 evs2,
+  q = WakeNow \/ q = NotifyRecv \/ q = NotifyPortFree ->
+  exec init ops1 = Some (s0, evs0) -> step s0 (Req q) = Ok s1 e ->
+  exec s1 ops2 = Some (s2, evs2) ->
+  match runs evs2 with
+  | [] => In (now s0) (queue s2) /\ now s2 = now s0
+  | v :: _ => v = now s0
+  end.
+Proof.
+  intros q ops1 s0 evs0 s1 e ops2 s2 evs2 Hq.
+  apply notify_now. destruct Hq as [-> | [-> | ->]]; exact I.
+Qed.
+Print Assumptions c13_notify_now_or_earlier.
+
+(** A notification never panics. *)
+Theorem c13_notify_never_panics : forall q ops s evs,
+  q = WakeNow \/ q = NotifyRecv \/ q = NotifyPortFree ->
+  exec init ops = Some (s, evs) -> exists s' e, step s (Req q) = Ok s' e.
+Proof.
+  intros q ops s evs Hq H. pose proof (inv_exec _ _ _ _ inv_init H) as HI.
+  assert (Ht : req_time q s = now s) by (destruct Hq as [-> | [-> | ->]]; reflexivity).
+  cbn [step]. unfold request. destruct (wake_at_spec s (req_time q s) HI) as [_ Hok].
+  destruct Hok as [s' [o [H1 _]]]; [lia|]. rewrite H1. eauto.
+Qed.
+Print Assumptions c13_notify_never_panics.
+
+(** Processor invocation times never decrease. *)
+Theorem c13_runs_monotone : forall ops s evs, exec init ops = Some (s, evs) ->
+  StronglySorted N.le (runs evs).
+Proof. intros ops s evs H. exact (runs_sorted ops init s evs inv_init H). Qed.
+Print Assumptions c13_runs_monotone.
+
+(** Regression lemma: if Handle did not reset the guard (mutation), a request
+    made after the processor ran at 10 for a later time 20 would be dropped with
+    nothing queued — the processor would never run again. *)
+Theorem c13_no_reset_mutation_refuted :
+  let stale := mk_st 10 [] 10 in            (* after Handle at 10 without the reset *)
+  schedule_wake_at stale 20 = Some (stale, ODrop) /\ queue stale = [] /\
+  exists s', schedule_wake_at (mk_st max64 [] 10) 20 = Some (s', OSched 20).
+Proof. repeat split. eexists. reflexivity. Qed.
+Print Assumptions c13_no_reset_mutation_refuted.
+
+(** Regression lemma: guard [<=] -> [<] (mutation) queues a second timer event for
+    an equal request — harmless for "no later" but no longer deduplicated. *)
+Theorem c13_guard_lt_mutation_duplicates :
+  exists s1 s2, schedule_wake_at_g false init 7 = Some (s1, OSched 7) /\
+                schedule_wake_at_g false s1 7 = Some (s2, OSched 7) /\ queue s2 = [7; 7].
+Proof. do 2 eexists. repeat split. Qed.
+Print Assumptions c13_guard_lt_mutation_duplicates.
+
+(** MaxUint64 doubles as "nothing pending": wake-ups requested for MaxUint64 are
+    queued but never deduplicated (harmless). *)
+Theorem c13_max64_not_deduplicated_witness :
+  exists s evs, exec init [Req (WakeAt max64); Req (WakeAt max64)] = Some (s, evs) /\
+                queue s = [max64; max64].
+Proof. do 2 eexists. vm_compute. split; reflexivity. Qed.
+Print Assumptions c13_max64_not_deduplicated_witness.
+
+(** Non-vacuity: later / equal / earlier / repeated requests, a superseded timer
+    that still fires, notifications, and requests between runs. *)
+Example c13_nonvacuous :
+  exists s evs,
+    exec init [Req (WakeAt 100); Req (WakeAt 200); Req (WakeAt 100); Req (WakeAt 50); Adv 20; Req NotifyRecv;
+               Req NotifyPortFree; Pop; Req (WakeAt 300); Pop; Adv 60; Req (WakeAt 70); Pop; Pop; Pop]
+    = Some (s, evs) /\ runs evs = [20; 50; 70; 100; 300] /\ queue s = [].
+Proof. do 2 eexists. vm_compute. repeat split. Qed.
